@@ -48,7 +48,15 @@ def main():
     if rc != 0:
         print(out)
         return 2
-    res = {"seed": name, "property": meta["property"], "ran": []}
+    res = {"seed": name, "property": meta["property"], "ran": [], "history": []}
+    # earlier runs (against earlier versions of the checks) are kept, oldest first
+    if os.path.exists(os.path.join(sd, "result.json")):
+        try:
+            old0 = json.load(open(os.path.join(sd, "result.json")))
+            res["history"] = old0.get("history", []) + [{"verif_commit": old0.get("verif_commit", "?"), "detected": old0.get("detected"), "checks": {k: v.get("line", "")[:200] for k, v in old0.get("checks", {}).items()}}]
+        except Exception:
+            pass
+    res["verif_commit"] = subprocess.run(["git", "-C", MAIN_VERIF, "rev-parse", "--short", "HEAD"], stdout=subprocess.PIPE, text=True).stdout.strip()
     if not confirm and os.path.exists(os.path.join(sd, "result.json")):
         old = json.load(open(os.path.join(sd, "result.json")))
         for k in ("demo_without_patch", "demo_with_patch", "existing_tests_with_patch"):
